@@ -470,7 +470,7 @@ def r8_eat_loops_terminate(a, tier):
     from ..modelinterp import Hook, ModelInterp, Stub
     rep = RuleReport(
         'C08.R8',
-        'skipping loops terminate for every regex: _eat_regex of TextLinesCursor, BufferCursor and Buffer, interpreted on a stand-in '
+        'skipping loops terminate for every regex: _eat_regex and _eat_regex_list (whitespace and comments) of TextLinesCursor, BufferCursor and Buffer, interpreted on a stand-in '
         'cursor whose scanner answers with scripted matches, stops when the regex matches the EMPTY string at the current position '
         '(a whitespace or comment regex such as /\\s*/ matches empty everywhere): an empty match is no progress and must end the '
         'loop, otherwise next_token() never returns',
@@ -486,8 +486,8 @@ def r8_eat_loops_terminate(a, tier):
         pass
 
     scripts = [('an empty match every time', [0] * 1000), ('two characters, then empty matches', [2] + [0] * 1000), ('one character, then no match', [1, None])]
-    for c in impls:
-        fn = a.p.func(f'{c}._eat_regex')
+    for c, entry in [(c, e) for c in impls for e in ('_eat_regex', '_eat_regex_list') if a.ct.lookup(c, e) is not None]:
+        fn = a.ct.lookup(c, entry)
         for what, script in scripts:
             calls = [0]
             text = 'x' * 10
@@ -515,7 +515,7 @@ def r8_eat_loops_terminate(a, tier):
                 me._attrs['_scanre'] = Hook(scan)
                 return me
             me = make()
-            it = ModelInterp(a)
+            it = ModelInterp(a, {'cached_re_compile': Hook(lambda r, *x, **k: r), 'str_from_match': Hook(lambda m, *x: 'x' * (m.e - m.s))})
 
             def methods(recv, name, args, kwargs):
                 if isinstance(recv, M):
@@ -533,15 +533,15 @@ def r8_eat_loops_terminate(a, tier):
             class _TruthyM(ModelInterp):
                 pass
             try:
-                it.apply(it.get_attr(me, '_eat_regex'), ['RX'], {})
+                it.apply(it.get_attr(me, entry), ['RX'], {})
                 ended = True
             except Diverges:
                 ended = False
             except Unsupported as e:
                 raise AnalysisError(f'cannot interpret {fn.qualname}: {e}') from e
-            rep.add({'impl': c.split('.')[-1], 'scanner_answers': what, 'terminates': ended, 'scanner_calls': calls[0], 'position': me._attrs.get('pos')})
+            rep.add({'impl': c.split('.')[-1] + '.' + entry, 'scanner_answers': what, 'terminates': ended, 'scanner_calls': calls[0], 'position': me._attrs.get('pos')})
             if not ended:
-                rep.fail(fn.qualname, f'eat-loop:{what}', f'{c.split(".")[-1]}._eat_regex keeps looping when the scanner answers with {what} '
+                rep.fail(fn.qualname, f'eat-loop:{what}', f'{c.split(".")[-1]}.{entry} keeps looping when the scanner answers with {what} '
                          f'(more than 60 rounds at position {me._attrs.get("pos")}): with @@whitespace :: /\\s*/ or a comments regex that can '
                          f'match the empty string, parsing any text hangs', fn.loc)
     return rep
@@ -837,6 +837,14 @@ def r14_pattern_literals(a, tier):
     return rep
 
 
+def r15_constant_terminates(a, tier):
+    """`no text makes them hang`: the deep evaluation of constants is a fixpoint iteration over values that may hold input text (= C17.R7)"""
+    from . import c17
+    rep = c17.constant_terminates(a, tier, 'C08.R15')
+    rep.text = '[= C17.R7] ' + rep.text
+    return rep
+
+
 def r11_line_index(a, tier):
     """the position a failure carries is turned into line, column and source line by the line index: the clause "whose line, column and
     source line agree with it" is the line-index rule of C12"""
@@ -850,4 +858,4 @@ def r11_line_index(a, tier):
 
 
 RULES = [r1_one_factory, r2_sentinels, r3_cache_guards, r4_check_before_use, r5_progress, r6_scanner_bounds, r7_operand_coverage,
-         r8_eat_loops_terminate, r9_converters_guarded, r10_message_renders, r11_line_index, r12_include_cycles, r13_input_converters, r14_pattern_literals]
+         r8_eat_loops_terminate, r9_converters_guarded, r10_message_renders, r11_line_index, r12_include_cycles, r13_input_converters, r14_pattern_literals, r15_constant_terminates]
